@@ -26,6 +26,15 @@ func init() {
 				"ok(oidc.CheckAuthorizationContextClassReference($r0, $v.ACR))",
 				"ok(oidc.CheckAuthTime($r0, $v.MaxAge))",
 			}},
+		{ID: "E8.tokens.response-binds-access-token", Fn: "client/rp.verifyTokenResponse", P: []string{"ctx", "token", "rp"}, Kind: "call", Pat: "rp.VerifyTokens(_, $token.AccessToken, $idt, $rp.IDTokenVerifier())", Min: 1, Max: 1,
+			Why: "the at_hash of the ID token is checked against the access token of the same token response, with the relying party's own verifier",
+			Req: []string{"def($idt, $token.Extra(rp.idTokenKey).(string), 0)"}},
+		{ID: "E8.tokens.response-binds-access-token.only", Fn: "client/rp.verifyTokenResponse", Kind: "call", Pat: "rp.VerifyTokens(__)", Max: 1},
+		{ID: "E8.tokens.response-claims-verified", Fn: "client/rp.verifyTokenResponse", P: []string{"ctx", "token", "rp"}, Kind: "ret ok", Pat: "ret(&Tokens{IDTokenClaims: $c}, nil)", Max: 1,
+			Req: []string{"def($c, rp.VerifyTokens(__), 0)", "ok(rp.VerifyTokens(__))"}},
+		{ID: "E8.signature.records-header-algorithm", Fn: "oidc.CheckSignature", P: []string{"ctx", "token", "payload", "claims", "supportedSigAlgs", "set"}, Kind: "call", Pat: "$claims.SetSignatureAlgorithm(conv(jose.SignatureAlgorithm, $sig.Header.Algorithm))", Min: 1, Max: 1,
+			Why: "the algorithm the at_hash is computed with is the one of the verified signature's header",
+			Req: []string{"def($sig, $jws.Signatures[0])", "ok($set.VerifySignature(_, $jws))"}},
 		{ID: "E1.tokens.idtoken-and-athash", Fn: "client/rp.VerifyTokens", P: []string{"ctx", "accessToken", "idToken", "v"}, Kind: "ret ok", Max: 1,
 			Req: []string{
 				"def($r0, rp.VerifyIDToken(_, $idToken, $v), 0)",
